@@ -15,6 +15,7 @@ use chia_bls::Signature;
 use chia_consensus::fast_forward::fast_forward_singleton;
 use chia_consensus::flags::{ConsensusFlags, MEMPOOL_MODE};
 use chia_consensus::owned_conditions::OwnedSpendBundleConditions;
+use chia_consensus::puzzle_fingerprint::compute_puzzle_fingerprint;
 use chia_consensus::spendbundle_conditions::run_spendbundle;
 use chia_protocol::{Bytes32, Coin, CoinSpend, Program, SpendBundle};
 use chia_traits::Streamable;
@@ -78,6 +79,24 @@ pub fn run_sb(spends: &[SpendIn], fork: &[String], consts: &Consts, src: &str) -
         }
     }));
     let mut ev = json!({"k": "sb", "src": src, "spends": sp_json, "fork": fork});
+    // the fingerprint function called directly on every condition list (also on lists that validation rejects)
+    ev["cpf"] = Value::Array(
+        spends
+            .iter()
+            .map(|s| {
+                let r = catch(std::panic::AssertUnwindSafe(|| {
+                    let mut a = Allocator::new();
+                    let n = s.conds.to_node(&mut a);
+                    compute_puzzle_fingerprint(&a, n).map(|h| h.to_vec()).map_err(|e| err_name(&e))
+                }));
+                match r {
+                    Ok(Ok(h)) => json!({"ok": true, "fp": jbytes(&h)}),
+                    Ok(Err(e)) => json!({"ok": false, "err": e}),
+                    Err(p) => json!({"ok": false, "err": format!("PANIC: {p}")}),
+                }
+            })
+            .collect(),
+    );
     let mut summary = None;
     match res {
         Ok(Ok(s)) => {
